@@ -143,6 +143,11 @@ def main():
         i = args.index("--out")
         out_path = args[i + 1]
         del args[i:i + 2]
+    wbase = 0
+    if "--wbase" in args:
+        i = args.index("--wbase")
+        wbase = int(args[i + 1])
+        del args[i:i + 2]
     no_hand = "--no-hand" in args
     do_seeded = "--seeded" in args
     do_reverts = "--reverts" in args
@@ -177,7 +182,7 @@ def main():
         for dname in sorted(glob.glob(os.path.join(V, "seeded", "C*"))):
             name = os.path.basename(dname)
             prop = name.split("_")[0]
-            if want and prop.lower() not in want:
+            if want and prop.lower() not in want and name.lower() not in want:
                 continue
             jobs.append(["seeded/%s" % name, [prop], "patch", os.path.join(dname, "patch.diff")])
     if do_reverts:
@@ -188,7 +193,7 @@ def main():
                 if subj.startswith(pre) and (not want or any(p.lower() in want for p in props)):
                     jobs.append(["revert/%s" % h, props, "revert", h])
     for i, j in enumerate(jobs):
-        j.append(i % nj)
+        j.append(wbase + i % nj)
     res_path = out_path or os.path.join(V, "tools", "mutants", "results.json")
     results = json.load(open(res_path)) if os.path.exists(res_path) else {}
     # one worker = one target dir: jobs of a worker run one after the other
